@@ -124,9 +124,9 @@ func storeOps(c, foreign *chain.Chain, i int) []tamper {
 			b.Block.GlobalStateRoot, b.SU.NewRoot = &r, &r
 		})
 	}
-	add("state_update/old_root", "+1", false, func(b *chain.Blk) { b.SU.OldRoot = inc(b.SU.OldRoot) })
+	add("state_update/old_root(garbage)", "+1", false, func(b *chain.Blk) { b.SU.OldRoot = inc(b.SU.OldRoot) })
 	if !blk.SU.OldRoot.IsZero() {
-		add("state_update/old_root", "=0", false, func(b *chain.Blk) { b.SU.OldRoot = new(felt.Felt) })
+		add("state_update/old_root(zero)", "=0", false, func(b *chain.Blk) { b.SU.OldRoot = new(felt.Felt) })
 	}
 	// an ancestor's root: a state the node really has. Offered only if applying the diff to
 	// that ancestor state gives a different abstract state than the block commits to.
@@ -140,7 +140,7 @@ func storeOps(c, foreign *chain.Chain, i int) []tamper {
 			continue
 		}
 		ar := *c.Blocks[j].Block.GlobalStateRoot
-		add("state_update/old_root", "=ancestor-root", false, func(b *chain.Blk) { r := ar; b.SU.OldRoot = &r })
+		add("state_update/old_root(ancestor-root)", "=ancestor-root", false, func(b *chain.Blk) { r := ar; b.SU.OldRoot = &r })
 		break
 	}
 
